@@ -295,6 +295,7 @@ def enumerate_whats(src):
                         yield ('slice', [list(x) for x in path], vf[0], i, j)
 
 
+_N_SHARED2 = 56  # shared programs from this one on were added after EXTRA7 existed: they go to the very end
 _N_SHARED = 46  # case ids are positional: the first 46 shared programs, then C06's, then whatever either list gained later
 
 
@@ -303,7 +304,7 @@ def progs(tier):
     late = list(CMTOPS) + list(PARS2)  # C06 programs added after EXTRA7 existed: they go to the very end (positional case ids)
     base = list(PROGRAMS[:_N_SHARED])
     base += [p for p in PROGS if p not in base and p not in PROGRAMS[_N_SHARED:] and p not in late]
-    return base + [p for p in PROGRAMS[_N_SHARED:] if p not in base] + EXTRA7 + late
+    return base + [p for p in PROGRAMS[_N_SHARED:_N_SHARED2] if p not in base] + EXTRA7 + late + list(PROGRAMS[_N_SHARED2:])
 
 
 EXTRA7 = [  # appended last (positional case ids)
